@@ -180,6 +180,8 @@ type runResult struct {
 	lines [][]byte
 	desc  string
 	err   error
+	exit  int
+	out   string // what cmd/ogen printed
 }
 
 func runScenario(ogenBin string, scn scenario, dir string) runResult {
@@ -308,7 +310,19 @@ func runScenario(ogenBin string, scn scenario, dir string) runResult {
 		evd = append(evd[:12], fmt.Sprintf("...%d more", len(evd)-12))
 	}
 	desc := fmt.Sprintf("fault=%s clean=%v target=%s -> exit %d, events %v, after %v, new %v", scn.FailAt, scn.Clean, map[bool]string{true: "absent", false: fmt.Sprint(names)}[scn.Absent], exit, evd, afterL, extra)
-	return runResult{lines: lines, desc: desc}
+	if exit != 0 {
+		desc += " | ogen said: " + lastLine(string(out))
+	}
+	return runResult{lines: lines, desc: desc, exit: exit, out: string(out)}
+}
+
+func lastLine(s string) string {
+	l := strings.Split(strings.TrimSpace(s), "\n")
+	t := strings.TrimSpace(l[len(l)-1])
+	if len(t) > 300 {
+		t = t[:300]
+	}
+	return t
 }
 
 // Check is the C20 entry point.
@@ -356,6 +370,8 @@ func Check(r *core.Run) error {
 		return fmt.Errorf("build cmd/ogen: %v\n%s", err, out)
 	}
 	results := make([]runResult, len(scns))
+	var retryMu sync.Mutex
+	var retried []string
 	var wg sync.WaitGroup
 	sem := make(chan struct{}, 12)
 	for i, s := range scns {
@@ -371,9 +387,30 @@ func Check(r *core.Run) error {
 			}
 			results[i] = runScenario(bin, s, dir)
 			os.RemoveAll(dir)
+			if s.FailAt == "none" && results[i].exit != 0 && results[i].err == nil {
+				// a run without an injected fault that fails did so for a reason outside the scenario
+				// (the machine was out of some resource while many traced processes ran side by side):
+				// the scenario is run again on its own; only a failure that repeats is judged
+				first := results[i]
+				retryMu.Lock()
+				dir2, err := os.MkdirTemp(r.Scratch, "scn-retry-")
+				if err == nil {
+					second := runScenario(bin, s, dir2)
+					os.RemoveAll(dir2)
+					if second.err == nil && second.exit == 0 {
+						results[i] = second
+						retried = append(retried, first.desc)
+					}
+				}
+				retryMu.Unlock()
+			}
 		}(i, s)
 	}
 	wg.Wait()
+	r.Cov("fault_free_runs_that_failed_once_and_passed_alone", retried)
+	for _, d := range retried {
+		fmt.Printf("INFO property=C20 environment failure, scenario passed when run alone: %s\n", d)
+	}
 	var all [][]byte
 	var owner []int
 	nEvents := 0
